@@ -42,7 +42,7 @@ CONSTANTS Calls, Hashes, MaxLanes, Kinds, LaneCounts, QSizes, HashBits,
 
 VARIABLES
   kind, nl, qsize,   \* configuration
-  slot,      \* hash -> lane (-1: not yet known, traces only)
+  slot,      \* hash -> lane (Unknown: not yet seen, traces only)
   started,   \* Run was called
   up,        \* lane -> consumer goroutine alive
   qclosed,   \* lane -> queue closed (pchan: the stop channel is closed)
@@ -69,6 +69,7 @@ LaneIds == 0..(MaxLanes - 1)
 Used(l) == l < nl
 Busy(l) == \E c \in Calls : cs[c] = "running" /\ lane[c] = l
 
+Unknown == 1000     \* slot of a hash class not yet seen (traces only)
 R(k, v, e) == [k |-> k, v |-> v, e |-> e]
 NoRet  == R("none", 0, FALSE)
 NoInfo == [h |-> 0, fail |-> FALSE]
@@ -114,7 +115,7 @@ FullOK(l) ==
 Enq(c, r, l) ==
   /\ cw[c] = "called"
   /\ l \in LaneIds /\ Used(l)
-  /\ slot[info[c].h] \in {-1, l}
+  /\ slot[info[c].h] \in {Unknown, l}
   /\ slot' = [slot EXCEPT ![info[c].h] = l]
   /\ CASE r = "ok" ->
             /\ ~qclosed[l] \/ (~FixPcAdd /\ kind = "pchan")
@@ -343,7 +344,7 @@ Routed == \A c \in Calls : cw[c] = "back" =>
     [] OTHER -> FALSE
 
 (* lane = Slot(hash), a function of the hash into 0..nl-1 *)
-SlotInRange == \A h \in Hashes : slot[h] = -1 \/ (slot[h] >= 0 /\ slot[h] < nl)
+SlotInRange == \A h \in Hashes : slot[h] = Unknown \/ (slot[h] >= 0 /\ slot[h] < nl)
 SlotFun == \A c \in Calls : lane[c] # -1 => (lane[c] = slot[info[c].h] /\ lane[c] >= 0 /\ lane[c] < nl)
 
 (* after Stop returned no later submission is accepted *)
